@@ -242,31 +242,19 @@ def validate(trace_path, module, cfg, wd, n_lines, tags, workers=None, timeout=3
         shards = 1 if (n_lines < 2000 and size < 4 << 20) else min(4, NCPU // 2 or 1)
     shards = max(1, min(shards, n_lines))
     workers = workers or max(2, NCPU // shards)
-    parts = []   # (path, first line number - 1, count)
+    parts = []   # (path, global line numbers of its lines, count)
     if shards == 1:
-        parts.append((trace_path, 0, n_lines))
+        parts.append((trace_path, None, n_lines))
     else:
+        # round-robin: expensive events (large packets, long scripts) come in runs, so contiguous shards are unbalanced
         with open(trace_path) as f:
             lines = f.readlines()
-        per = (size + shards - 1) // shards
-        cur, cur_sz, start = [], 0, 0
-        k = 0
-        for i, l in enumerate(lines):
-            cur.append(l)
-            cur_sz += len(l)
-            if cur_sz >= per and len(parts) < shards - 1:
-                pth = "%s.shard%d" % (trace_path, k)
-                with open(pth, "w") as fo:
-                    fo.writelines(cur)
-                parts.append((pth, start, len(cur)))
-                k += 1
-                start = i + 1
-                cur, cur_sz = [], 0
-        if cur:
+        for k in range(shards):
+            idx = list(range(k, len(lines), shards))
             pth = "%s.shard%d" % (trace_path, k)
             with open(pth, "w") as fo:
-                fo.writelines(cur)
-            parts.append((pth, start, len(cur)))
+                fo.writelines(lines[i] for i in idx)
+            parts.append((pth, idx, len(idx)))
     res = {}
     outs = []
     with concurrent.futures.ThreadPoolExecutor(max_workers=len(parts)) as ex:
@@ -280,7 +268,7 @@ def validate(trace_path, module, cfg, wd, n_lines, tags, workers=None, timeout=3
                     for t, rest in prints(line):
                         n, _, txt = rest.partition("|")
                         if n.isdigit():
-                            ln = int(n) + base
+                            ln = int(n) if base is None else base[int(n) - 1] + 1
                             fixed.append(json.dumps("@@%s|%d|%s" % (t, ln, txt)))
                             if t in tags:
                                 res[ln] = (t, txt)
